@@ -178,6 +178,42 @@ Proof.
   destruct (collect (nxt s) (nxt s) t xs) as [es b].
   unfold unify_st. destruct (unify_fast _ _ _ _); cbn [fst length]; lia.
 Qed.
+
+(* findall unifies the bag only AFTER the enumeration of G is complete: what is collected (the list of instances and
+   the variable counter, or the fact that G ended in an error) is determined by the call, the template, the goal and the
+   state of the call alone - it is chosen BEFORE the bag l is looked at - and the bag is then unified with that list in
+   the store of the call.  In particular G runs in the state of the call whatever the bag is (unbound, a closed or a
+   partial list, sharing variables with G or not): no binding flows from the bag into the enumeration of G. *)
+Definition findall_collected (t g : term) (s : st) : option (list term * nat) :=
+  let '(xs, e) := call_goal call g [] s in if e then None else Some (collect (nxt s) (nxt s) t xs).
+
+Lemma findall_bag_after_enumeration t g s :
+  exists r : option (list term * nat),
+    r = findall_collected t g s /\ forall l, builtin call (s_ "findall") [t; g; l] s =
+              Some (match r with
+                    | None => ([], true)
+                    | Some (es, b) => unify_st {| sto := sto s; nxt := b |} l (mk_list es)
+                    end).
+Proof.
+  exists (findall_collected t g s). split; [reflexivity|]. intros l.
+  change (builtin call (s_ "findall") [t; g; l] s) with
+  (Some (let '(xs, e) := call_goal call g [] s in
+         if e then ([], true) else
+         let '(es, b) := collect (nxt s) (nxt s) t xs in unify_st {| sto := sto s; nxt := b |} l (mk_list es))).
+  unfold findall_collected. destruct (call_goal call g [] s) as [xs [|]]; [reflexivity|].
+  destruct (collect (nxt s) (nxt s) t xs) as [es b]. reflexivity.
+Qed.
+
+(* consequence: two calls that differ only in the bag see the same collected list; whether each succeeds is the
+   unifiability of its own bag with that list *)
+Lemma findall_bags_same_list t g s l1 l2 :
+  exists r, (forall es b, r = Some (es, b) ->
+               builtin call (s_ "findall") [t; g; l1] s = Some (unify_st {| sto := sto s; nxt := b |} l1 (mk_list es)) /\ builtin call (s_ "findall") [t; g; l2] s = Some (unify_st {| sto := sto s; nxt := b |} l2 (mk_list es))) /\ (r = None -> builtin call (s_ "findall") [t; g; l1] s = Some ([], true) /\ builtin call (s_ "findall") [t; g; l2] s = Some ([], true)).
+Proof.
+  destruct (findall_bag_after_enumeration t g s) as [r [_ H]]. exists r. split.
+  - intros es b E. rewrite !H, E. split; reflexivity.
+  - intros E. rewrite !H, E. split; reflexivity.
+Qed.
 End BuiltinSpec.
 
 (* ---------------------------------------------------------------- naming instead of unifying *)
